@@ -8,6 +8,7 @@ import (
 	"io"
 
 	"github.com/foxglove/mcap/go/mcap"
+	"github.com/pierrec/lz4/v4"
 	"verif/sim/internal/refmcap"
 	"verif/sim/internal/scen"
 )
@@ -22,6 +23,8 @@ import (
 //            stream (or at Close if nothing was written), body xor nonce bytes
 //   x-eager  like x-nonce, but the preamble is written inside Reset - legal
 //            for the interface (Reset hands over the destination)
+//   byolz4   announces the built-in name "lz4": a real lz4 frame stream made with the
+//            caller's own encoder settings
 
 // ---- xor -------------------------------------------------------------------
 
@@ -154,6 +157,12 @@ func Compressor(name string) mcap.CustomCompressor {
 		w = &nonceW{}
 	case "eager":
 		w = &nonceW{eager: true}
+	case "byolz4":
+		// a caller's own lz4 encoder under the built-in format name (block checksums on, which
+		// the library's encoder does not use): any reader decodes it, the bytes differ
+		lw := lz4.NewWriter(io.Discard)
+		_ = lw.Apply(lz4.BlockChecksumOption(true), lz4.CompressionLevelOption(lz4.Fast))
+		w = lw
 	default:
 		panic("unknown custom codec " + name)
 	}
